@@ -136,6 +136,11 @@ def run_stream(prop, res, sc, workdir):
                 f.write("\n".join(extra) + "\n" + body)
         info["corpus"] = len(cin)
     stats = json.load(open(prefix + ".stats.json"))
+    if stats.get("generator_panic"):
+        res.broken.append({"kind": "correspondence",
+                           "name": f"stream {sc.name}: the implementation panicked while the generator was driving it",
+                           "detail": {"panic": stats["generator_panic"][:500], "cases_written": stats.get("cases")}})
+        V.log(f"stream {sc.name}: generator stopped by a panic inside the implementation: {stats['generator_panic'][:200]}")
     info["harness_s"] = round(time.time() - t0, 2)
     ins, impl, desc = (V.read_lines(prefix + s) for s in (".in", ".impl", ".desc"))
     res.evaluations += len(ins)
@@ -510,7 +515,7 @@ _BOARD_TRUSTED = [
     "hook board/export_verif.go (VerifSnapshot/VerifRestore deep copies, VerifCalcHash = calculateHash, VerifZobrist tables -> Gen/Zobrist.v)",
     "attack primitives of the model are the geometric definitions of Spec/Geometry.v (tied to the engine's magic tables by C12); they only enter make through CanEnPassant",
 ]
-_MKSEQ_RULE = ("random walks shaped like the search's tree walk (make / null move / undo-latest, stack depth <= 40, <= 92 operations, "
+_MKSEQ_RULE = ("random walks shaped like the search's tree walk (make / null move / undo-latest, stack depth <= 40, <= 92 operations; 1.2 % long lines nesting 126..394 outstanding makes, i.e. across the 128 / 256 / 384 entry marks of the hash-history buffer, "
                "pseudo-legal-but-illegal moves made and undone at once) from G1 play-out, G2 sparse and G4 mutated positions; "
                "distinct by start position and operation list")
 
